@@ -680,6 +680,7 @@ type c20Question struct {
 	IsSrc   bool     // text questions: the answer block is evy source
 	RunOut  string   // text questions with IsSrc: expected output of running the trimmed answer
 	Comment string
+	NearMiss int // choices whose output differs from the question's only by newlines, blanks or case
 }
 
 var c20Words = []string{"hi", "ho", "hey", "héllo", "🐜🐛", "42", "a b", "x-y", "Hi", "hi!", "g", "w"}
@@ -702,49 +703,107 @@ func c20ChoiceQuestion(rng *rand.Rand, atype string, answer string, n int, equal
 	q := c20Question{AType: atype, Answer: answer, Style: style, Gen: gen + "\n"}
 	var b strings.Builder
 	b.WriteString("## Question\n\n")
-	words := make([]string, n)
-	errProg := make([]bool, n)
-	for i := range words {
-		if equal[i] {
-			words[i] = gen
-			continue
-		}
-		for {
-			words[i] = c20Words[rng.Intn(len(c20Words))]
-			if words[i] != gen {
-				break
-			}
-		}
-		if style == 1 && rng.Intn(6) == 0 {
-			errProg[i] = true
-		}
-	}
 	switch style {
 	case 0, 2:
 		b.WriteString("What does this program print?\n\n```evy\n" + c20PrintProg(rng, gen) + "\n```\n\nChoose:\n\n")
 	case 1:
 		b.WriteString("Which program prints this?\n\n```\n" + gen + "\n```\n\nChoose:\n\n")
 	}
-	for i, w := range words {
+	for i := 0; i < n; i++ {
+		// the choice as source text (an evy program for style 1, literal output text otherwise)
+		// and the output it is designed to have
+		var src, out string
+		if equal[i] {
+			src, out = c20ChoiceSource(rng, style, gen), gen+"\n"
+		} else if rng.Intn(2) == 0 {
+			// a near miss: differs from the question's output only by trailing newlines,
+			// leading/trailing blanks or case -- the comparison is exact, so it is different
+			src, out = c20NearMiss(rng, style, gen)
+		}
+		if src == "" {
+			w := gen
+			for w == gen {
+				w = c20Words[rng.Intn(len(c20Words))]
+			}
+			src, out = c20ChoiceSource(rng, style, w), w+"\n"
+			if style == 1 && rng.Intn(6) == 0 {
+				src, out = "print "+strings.ReplaceAll(w, " ", "")+"_undefined", "**ERROR**"
+			}
+		}
 		switch style {
 		case 0:
-			b.WriteString("- `" + w + "`\n")
-			q.Outs = append(q.Outs, w+"\n")
+			b.WriteString("- `" + src + "`\n")
 		case 2:
-			b.WriteString("- ```\n  " + w + "\n  ```\n")
-			q.Outs = append(q.Outs, w+"\n")
+			b.WriteString("- ```\n  " + strings.ReplaceAll(src, "\n", "\n  ") + "\n  ```\n")
 		case 1:
-			prog := c20PrintProg(rng, w)
-			out := w + "\n"
-			if errProg[i] {
-				prog, out = "print "+strings.ReplaceAll(w, " ", "")+"_undefined", "**ERROR**"
-			}
-			b.WriteString("- ```evy\n  " + strings.ReplaceAll(prog, "\n", "\n  ") + "\n  ```\n")
-			q.Outs = append(q.Outs, out)
+			b.WriteString("- ```evy\n  " + strings.ReplaceAll(src, "\n", "\n  ") + "\n  ```\n")
+		}
+		q.Outs = append(q.Outs, out)
+		if out != gen+"\n" && strings.EqualFold(strings.TrimSpace(out), strings.TrimSpace(gen)) {
+			q.NearMiss++
 		}
 	}
 	q.Body = b.String()
 	return q
+}
+
+// source of a choice whose output is w + "\n"
+func c20ChoiceSource(rng *rand.Rand, style int, w string) string {
+	if style == 1 {
+		return c20PrintProg(rng, w)
+	}
+	return w
+}
+
+func c20SwapCase(w string) string {
+	if u := strings.ToUpper(w); u != w {
+		return u
+	}
+	return strings.ToLower(w)
+}
+
+// c20NearMiss returns a choice whose output differs from gen+"\n" only by
+// trailing newlines, leading/trailing blanks or case ("" if this style cannot
+// express the drawn kind for this word).
+func c20NearMiss(rng *rand.Rand, style int, gen string) (src, out string) {
+	cased := c20SwapCase(gen)
+	switch style {
+	case 1: // evy programs
+		switch rng.Intn(7) {
+		case 0: // printf without newline
+			return "printf \"" + gen + "\"", gen
+		case 1: // an extra bare print
+			return "print \"" + gen + "\"\nprint", gen + "\n\n"
+		case 2: // the string itself ends in a newline
+			return "print \"" + gen + "\\n\"", gen + "\n\n"
+		case 3:
+			return "print \" " + gen + "\"", " " + gen + "\n"
+		case 4:
+			return "print \"" + gen + " \"", gen + " \n"
+		case 5: // two arguments: a blank is inserted, here at the end
+			return "print \"" + gen + "\" \"\"", gen + " \n"
+		default:
+			if cased != gen {
+				return "print \"" + cased + "\"", cased + "\n"
+			}
+		}
+	case 2: // literal output in a fenced block
+		switch rng.Intn(3) {
+		case 0: // an extra empty line inside the fence
+			return gen + "\n", gen + "\n\n"
+		case 1:
+			return " " + gen, " " + gen + "\n"
+		default:
+			if cased != gen {
+				return cased, cased + "\n"
+			}
+		}
+	case 0: // inline code: only case can differ
+		if cased != gen {
+			return cased, cased + "\n"
+		}
+	}
+	return "", ""
 }
 
 func c20Letters(marks []int, rng *rand.Rand) string {
@@ -825,6 +884,10 @@ func (e *c20Env) check(q c20Question, mode c20Mode, equal []bool) {
 	canon := fmt.Sprintf("v/%s/%q/%v/%v/%d/%s", q.AType, q.Answer, equal, q.Outs, q.Style, mode.Name)
 	r.Count(canon, len(q.Outs) >= 2 || q.AType == "text")
 	r.Dist("verify:" + q.AType + ":" + mode.Name + ":" + implClass)
+	if q.NearMiss > 0 {
+		r.Distribution["verify:choices-that-are-near-misses"] += q.NearMiss
+		r.Dist("verify:questions-with-near-miss")
+	}
 	if herr != "" {
 		r.Violate(Violation{Kind: "correspondence", Key: "harness-" + herr, Detail: "the generated question did not load as intended: " + herr, Input: input, Impl: implClass})
 		return
@@ -1332,7 +1395,7 @@ func runC20(cfg Config, r *Result) {
 	defer os.RemoveAll(dir)
 	r.Rule = "A: Decrypt(Encrypt(t)) = t for random texts (0..20000 bytes, any Unicode, stray bytes) under 2 fresh key pairs (1024, 2048 bit); for 3 (quick) / 20 (thorough) sealed values single-byte corruptions of the envelope bytes and of the base64 text (thorough: every position, all 255 other values per envelope byte for all 20 values and per base64 character for the first 6, 8 bit flips per character for the rest; quick: a sample of about 55 envelope positions - header, both ends of the RSA part, the whole GCM tag, 24 random - and about 50 base64 positions, all 255 values at the sampled envelope positions of the first value, otherwise the 8 single-bit flips), every truncation of both, and the other private key: result must be rejection or the original text, and the rejection stage must be the one the model predicts under the ideal functionality; model unframe/frame on the real envelopes and on random garbage. " +
 		"B: random Seal/Unseal/Unseal-with-wrong-key sequences on the real front matter vs the model. " +
-		"C: every non-empty subset of letters a..(one beyond the last choice) x every equal/different assignment for 2..5 choices (multiple choice), every single letter of those and z (single choice), through markdown files whose outputs are produced by running evy, in plain and sealed / wrong key / no key / ignored / verification-none modes; text answers with white-space variants. " +
+		"C: every non-empty subset of letters a..(one beyond the last choice) x every equal/different assignment for 2..5 choices (multiple choice), every single letter of those and z (single choice), through markdown files whose outputs are produced by running evy (a choice of the different class is with probability 1/2 a near miss: output differing from the question's only by trailing newlines - printf, an extra bare print, a string ending in \\n -, by a leading/trailing blank or by case; choice outputs are compared exactly), in plain and sealed / wrong key / no key / ignored / verification-none modes; text answers with white-space variants. " +
 		"non-trivial = non-empty text (A), >= 2 operations (B), every question (C); distinct = distinct canonical case"
 	if cfg.Replay != "" {
 		c20Replay(cfg, r, model, dir)
